@@ -140,7 +140,7 @@ func ruleC19Load(cx *Ctx) {
 		if b.Op != token.LEQ && b.Op != token.GTR {
 			return
 		}
-		for _, i := range ifsOn(b) {
+		for _, i := range ifsOnConj(b) {
 			// the "expired" edge must not reach Set in this iteration: it goes back to the loop head
 			expiredIdx := i.TrueIdx
 			if b.Op == token.GTR {
@@ -149,7 +149,7 @@ func ruleC19Load(cx *Ctx) {
 			tgt := i.If.Block().Succs[expiredIdx]
 			skips := isLoopHeader(tgt) || !blockReachableAvoiding(tgt, set.Block(), loopHeaders(fn))
 			flagGuard := false
-			for _, g := range guardsAt(i.If.Block()) {
+			for _, g := range append(guardsAt(i.If.Block()), guardsAt(b.Block())...) {
 				if f := fieldOf(g.Cond); f != nil && fname(f) == "withExpiration" && g.Truth {
 					flagGuard = true
 				}
